@@ -24,6 +24,8 @@ theorem matchBin_is (r : List Tok) : matchBin (.kw .is :: r) = none := rfl
 theorem matchBin_if (r : List Tok) : matchBin (.kw .if :: r) = none := rfl
 theorem matchBin_lbracket (r : List Tok) : matchBin (.p .lbracket :: r) = none := rfl
 
+theorem matchBin_dot (r : List Tok) : matchBin (.p .dot :: r) = none := rfl
+
 theorem toks_head (op : BOp) : ∃ t r, op.toks = t :: r ∧ t ≠ .p .lparen := by
   cases op <;> exact ⟨_, _, rfl, by decide⟩
 
@@ -39,6 +41,8 @@ theorem not_le_detached : notLvl ≤ detachedLvl := by decide
 theorem ifRhs_le_bracket : rhsMin ifRuleLvl ifAssoc ≤ bracketLvl := by decide
 theorem ifThen_le_bracket : ifThenRuleLvl ≤ bracketLvl := by decide
 theorem bracket_le_top : bracketLvl ≤ topLvl := by decide
+theorem bracket_le_dot : bracketLvl ≤ dotLvl := by decide
+theorem dot_le_top : dotLvl ≤ topLvl := by decide
 theorem rhsMin_le_bracket (op : BOp) : rhsMin op.ruleLvl op.assoc ≤ bracketLvl := by
   cases op <;> decide
 
